@@ -29,11 +29,22 @@ def core_free(name, profile, secs, flavour="native", alloc="quarantine", shards=
 
 
 def core_evidence(merged, results):
-    hashes = set(merged.get("hashes", []))
+    # union of the per-shard hash sets; a shard with too many hashes to list contributes its own count
+    # (shards use disjoint execution numbers and seeds)
+    hashes = set()
+    extra = 0
+    for r in results:
+        rep = r.get("report")
+        if not rep:
+            continue
+        if rep.get("hashes"):
+            hashes.update(rep["hashes"])
+        else:
+            extra += rep.get("counters", {}).get("distinct_nontrivial", 0)
     c = merged["counters"]
     ev = {}
-    if hashes:
-        ev["distinct_nontrivial"] = len(hashes)
+    if hashes or extra:
+        ev["distinct_nontrivial"] = len(hashes) + extra
     ev["loads_by_path"] = {k: v for k, v in c.items() if k.startswith("load.")}
     ev["writer_paths"] = {k: v for k, v in c.items() if k.startswith(("write.", "cas.", "rcu.", "node."))}
     ev["histories_checked"] = c.get("histories.linearizable", 0)
